@@ -7,6 +7,8 @@
   mutant.py check <patch.diff> <Cnn> [<Cnn> ...] [--tier quick] [--seed N]
         Applies the patch to /repo's working tree (which must be clean), runs the registered check of
         each property, undoes the patch (git checkout -- .) and prints which checks raised a VIOLATION.
+  mutant.py check-wt <patch.diff> <Cnn> [...]
+        Same, but on a private scratch worktree of /repo's HEAD; /repo is not touched.
   mutant.py keep <mutant-dir> <id> <property> <json-summary-file>
         Copies patch.diff/demo.py/notes.md into /verif/seeded/<id>/ and writes meta.json.
 """
@@ -96,6 +98,40 @@ def check(patch, props, tier="quick", seed=None):
     return res
 
 
+def check_wt(patch, props, tier="quick", seed=None):
+    """Like check(), but on a private scratch worktree of /repo's HEAD (VERIF_REPO + PYTHONPATH), so
+    that /repo itself is never touched and several of these can run side by side."""
+    import shutil
+    import tempfile
+
+    wt = tempfile.mkdtemp(prefix="uxverif-mut-wt-")
+    os.rmdir(wt)
+    rc, out = sh(["git", "-C", REPO, "worktree", "add", "--detach", wt, "HEAD"])
+    assert rc == 0, out
+    scratch = tempfile.mkdtemp(prefix="uxverif-mut-out-")
+    res = {"patch": patch, "results": {}}
+    try:
+        rc, out = sh(["git", "-C", wt, "apply", "--whitespace=nowarn", patch])
+        if rc != 0:
+            rc, out2 = sh(["patch", "-p1", "--fuzz=3", "-s", "-d", wt, "-i", patch])
+            if rc != 0:
+                return {"apply_error": (out + out2)[-500:]}
+            res["applied_with_fuzz"] = True
+        for p in props:
+            env = dict(os.environ, VERIF_REPO=wt, PYTHONPATH=wt, VERIF_EVIDENCE_DIR=scratch, VERIF_REPLAY_DIR=scratch, VERIF_SCRATCH=scratch + "-s")
+            if seed is not None:
+                env["VERIF_SEED"] = str(seed)
+            t0 = time.time()
+            rc, out = sh([PY, os.path.join(VERIF, "check.py"), "--property", p, "--tier", tier], cwd=VERIF, env=env, timeout=7200)
+            lines = [l for l in out.splitlines() if l.startswith("VIOLATION") or l.startswith("violation:") or l.startswith("  detail:") or l.startswith("HARNESS-ERROR")]
+            res["results"][p] = {"rc": rc, "wall_s": round(time.time() - t0, 1), "lines": lines[:12]}
+    finally:
+        sh(["git", "-C", REPO, "worktree", "remove", "--force", wt])
+        shutil.rmtree(scratch, ignore_errors=True)
+        shutil.rmtree(scratch + "-s", ignore_errors=True)
+    return res
+
+
 def keep(mdir, mid, prop, summary_file):
     dst = os.path.join(VERIF, "seeded", mid)
     os.makedirs(dst, exist_ok=True)
@@ -126,5 +162,17 @@ if __name__ == "__main__":
             seed = int(rest[i + 1])
             del rest[i : i + 2]
         print(json.dumps(check(rest[0], rest[1:], tier, seed), indent=1))
+    elif a[0] == "check-wt":
+        rest = a[1:]
+        tier, seed = "quick", None
+        if "--tier" in rest:
+            i = rest.index("--tier")
+            tier = rest[i + 1]
+            del rest[i : i + 2]
+        if "--seed" in rest:
+            i = rest.index("--seed")
+            seed = int(rest[i + 1])
+            del rest[i : i + 2]
+        print(json.dumps(check_wt(rest[0], rest[1:], tier, seed), indent=1))
     elif a[0] == "keep":
         keep(a[1], a[2], a[3], a[4])
